@@ -1,0 +1,22 @@
+//go:build verif
+
+package sse
+
+// Ghost lemma functions for the deductive checks in /verif (compiled only under the build tag "verif", never called).
+// Their contracts (verif_contracts.go) are proved from the contracts of Clone and AppendData alone.
+
+// A clone's first append cannot write into the array it shares with the original: Clone limits the capacity to the
+// length, so the append allocates a new array.
+func lemmaCloneAppendReallocates(e *Message, s string) *Message {
+	c := e.Clone()
+	c.AppendData(s)
+	return c
+}
+
+// Appending to the original after a clone was taken leaves what the clone holds untouched: in-place appends only
+// write beyond the original's old length, which is the clone's length.
+func lemmaOriginalAppendKeepsClone(e *Message, s string) *Message {
+	c := e.Clone()
+	e.AppendData(s)
+	return c
+}
